@@ -173,9 +173,11 @@ def encode_acase(tr, max_legs=None):
 # ----------------------------------------------------------------------------------------------
 def run_history_check(ctx, prop, oracle_props, encoders, trusted, assumptions, explanation,
                       jobs=None, max_legs=None, coq_legs=None, replay_jobs=None, static_obligations=None, prebuilt=False,
-                      extra_batches=()):
+                      extra_batches=(), record_fresh=True, record_instates=True):
     """Common body of the history checks.
-    encoders: list of (name, header, checker, case_type, encode(trace) -> term or None)."""
+    encoders: list of (name, header, checker, case_type, encode(trace) -> term or None).
+    Traces are produced, checked and encoded in batches of BATCH runs so that memory stays bounded."""
+    import time as _time
     if not prebuilt:
         C.build_scratch(ctx, exts=("heap", "mic", "ipc"))
     broken = []
@@ -184,106 +186,121 @@ def run_history_check(ctx, prop, oracle_props, encoders, trusted, assumptions, e
         broken.append("Props/%s.v does not check: %s" % (prop, out[-600:]))
     if static_obligations:
         broken += static_obligations(ctx)
+    max_legs = max_legs or ctx.n(250, 1200)
+    coq_legs = coq_legs or ctx.n(150, 400)
+    # ---- payloads
+    payloads = []
     if replay_jobs is not None:
-        jobs, seeds = replay_jobs, None
+        payloads = [dict(pl) for pl in replay_jobs]
     else:
         jobs = jobs or standard_jobs(ctx)
-    max_legs = max_legs or ctx.n(250, 1200)
-    if replay_jobs is not None:
-        payloads = replay_jobs
-        trs = C.run_driver_parallel(ctx, "trace_run", payloads, timeout=1200)
-        for tr, pl in zip(trs, payloads):
+        seeds = (ctx.seed, ctx.seed + 1000) if ctx.tier == "thorough" else (ctx.seed,)
+        batches = [(jobs, max_legs, seeds)] + list(extra_batches)
+        for (xjobs, xlegs, xseeds) in batches:
+            for (c, ov) in xjobs:
+                for sd in xseeds:
+                    if isinstance(ov, str):      # harness-generated configuration: (label, ini text)
+                        payloads.append({"config": c, "ini_text": ov, "seed": sd, "max_legs": xlegs, "overrides": {}})
+                    else:
+                        payloads.append({"config": c, "seed": sd, "max_legs": xlegs, "overrides": ov})
+    for pl in payloads:
+        pl.setdefault("record_fresh", record_fresh)
+        pl.setdefault("record_instates", record_instates)
+    BATCH = 24
+    all_fail, mism, labels = [], [], []
+    stats_sum, cfg_kinds = {}, {}
+    neval_total = nleg = ntraces = 0
+    t_trace = t_oracle = t_coq = 0.0
+    for b0 in range(0, len(payloads), BATCH):
+        pls = payloads[b0:b0 + BATCH]
+        t0 = _time.time()
+        trs = C.run_driver_parallel(ctx, "trace_run", pls, timeout=1800)
+        for tr, pl in zip(trs, pls):
             tr["overrides"] = pl.get("overrides")
-    else:
-        trs = run_traces(ctx, jobs, max_legs, seeds=(ctx.seed, ctx.seed + 1000) if ctx.tier == "thorough" else (ctx.seed,))
-        for (xjobs, xlegs, xseeds) in extra_batches:
-            trs += run_traces(ctx, xjobs, xlegs, seeds=xseeds)
-    import time as _time
-    t_traced = _time.time()
-    ctx.notes.append("tracing took %.1fs" % (t_traced - ctx.t0))
-    # 1. model-independent oracle on every trace
-    all_fail = []
-    stats_sum = {}
-    for ti, tr in enumerate(trs):
-        fails, stats = TC.check_all(tr, props=oracle_props)
-        for p in oracle_props:
-            for f in fails[p]:
-                all_fail.append((ti, p, f))
-        for k, v in stats.items():
-            if isinstance(v, dict):
-                d = stats_sum.setdefault(k, {})
-                for kk, vv in v.items():
-                    d[kk] = d.get(kk, 0) + vv
-            elif k == "max_moving":
-                stats_sum[k] = max(stats_sum.get(k, 0), v)
-            else:
-                stats_sum[k] = stats_sum.get(k, 0) + v
-    ctx.notes.append("oracle took %.1fs" % (_time.time() - t_traced))
-    t_or = _time.time()
-    # 2. conformance of the recorded runs with the Coq model, evaluated in Coq
-    mism = []
-    neval_total = 0
-    coq_legs = coq_legs or ctx.n(150, 400)
-    for (name, header, checker, case_type, encode) in encoders:
-        terms, idx = [], []
+            tr["ini_text"] = pl.get("ini_text")
+        t_trace += _time.time() - t0
+        t0 = _time.time()
+        # 1. model-independent oracle on every trace
         for ti, tr in enumerate(trs):
-            if tr.get("error"):
+            fails, stats = TC.check_all(tr, props=oracle_props)
+            for p_ in oracle_props:
+                for f in fails[p_]:
+                    all_fail.append((payload_of(tr, f["leg"] + 2), p_, f, tr["config"]))
+            for k, v in stats.items():
+                if isinstance(v, dict):
+                    d = stats_sum.setdefault(k, {})
+                    for kk, vv in v.items():
+                        d[kk] = d.get(kk, 0) + vv
+                elif k == "max_moving":
+                    stats_sum[k] = max(stats_sum.get(k, 0), v)
+                else:
+                    stats_sum[k] = stats_sum.get(k, 0) + v
+            nleg += len(tr["legs"])
+            ntraces += 1
+            cfg_kinds[tr["config"]] = cfg_kinds.get(tr["config"], 0) + 1
+            if len(labels) < 8:
+                labels.append(trace_label(tr))
+        t_oracle += _time.time() - t0
+        t0 = _time.time()
+        # 2. conformance of the recorded runs with the Coq model, evaluated in Coq
+        for (name, header, checker, case_type, encode) in encoders:
+            terms, idx = [], []
+            for ti, tr in enumerate(trs):
+                if tr.get("error"):
+                    continue
+                t = encode(tr, coq_legs)
+                if t is not None:
+                    terms.append(t)
+                    idx.append(ti)
+            if not terms:
                 continue
-            t = encode(tr, coq_legs)
-            if t is not None:
-                terms.append(t)
-                idx.append(ti)
-        if not terms:
-            continue
-        neval, bad, nfiles, nok, err = C.eval_cases(ctx, name, header, terms, checker, case_type, per_file=1)
-        neval_total += neval
-        if err:
-            broken.append("%s case files did not evaluate: %s" % (name, err[-800:]))
-        mism += [(name, idx[i]) for i in bad]
-    ctx.notes.append("coq conformance took %.1fs" % (_time.time() - t_or))
+            neval, bad, nfiles, nok, err = C.eval_cases(ctx, "%s_b%03d" % (name, b0 // BATCH), header, terms, checker,
+                                                        case_type, per_file=1)
+            neval_total += neval
+            if err:
+                broken.append("%s case files did not evaluate: %s" % (name, err[-800:]))
+            mism += [(name, payload_of(trs[idx[i]], coq_legs), trs[idx[i]]["config"]) for i in bad]
+        t_coq += _time.time() - t0
+        del trs
+    ctx.notes += ["tracing took %.1fs" % t_trace, "oracle took %.1fs" % t_oracle, "coq conformance took %.1fs" % t_coq]
     # verdicts
     if all_fail:
-        ti, p, f = all_fail[0]
-        tr = trs[ti]
-        C.violation(ctx, "oracle", {"kind": "trace", "payload": {"config": tr["config"], "seed": tr["seed"],
-                                    "overrides": tr.get("overrides") or {}, "max_legs": f["leg"] + 2,
-                                    "ini_text": tr.get("ini_text")},
-                                    "leg": f["leg"], "message": f["msg"], "n_failing": len(all_fail),
-                                    "other_failures": [(trs[a]["config"], b, c) for a, b, c in all_fail[1:6]]},
-                    "%s fails on a real run: %s (leg %d of %s)" % (prop, f["msg"], f["leg"], tr["config"]))
+        pl, p_, f, cfg = all_fail[0]
+        C.violation(ctx, "oracle", {"kind": "trace", "payload": pl, "leg": f["leg"], "message": f["msg"],
+                                    "n_failing": len(all_fail),
+                                    "other_failures": [(c, b, d) for a, b, d, c in all_fail[1:6]]},
+                    "%s fails on a real run: %s (leg %d of %s)" % (prop, f["msg"], f["leg"], cfg))
     elif mism:
-        name, ti = mism[0]
-        tr = trs[ti]
-        C.violation(ctx, "conformance", {"kind": "trace", "payload": {"config": tr["config"], "seed": tr["seed"],
-                                         "overrides": tr.get("overrides") or {}, "max_legs": coq_legs,
-                                         "ini_text": tr.get("ini_text")},
+        name, pl, cfg = mism[0]
+        C.violation(ctx, "conformance", {"kind": "trace", "payload": pl,
                                          "message": "recorded run is not accepted by the Coq model (%s); the "
                                          "model-independent oracle found no failing step; correspondence %s no longer "
                                          "checks" % (name, name), "n_mismatching_traces": len(mism)},
                     "recorded run not accepted by the Coq model %s" % name, nofail=True)
     elif broken:
         C.violation(ctx, "obligation", {"kind": "obligation", "broken": broken}, broken[0][:300], nofail=True)
-    nleg = sum(len(tr["legs"]) for tr in trs)
-    cfg_kinds = {}
-    for tr in trs:
-        cfg_kinds[tr["config"]] = cfg_kinds.get(tr["config"], 0) + 1
     C.write_evidence(ctx, {
         "evaluations": nleg,
         "distinct_nontrivial": stats_sum.get("commits", 0),
         "rule": "legs of traced real runs (jellyfysh.run.main with the tracer attached) of the 17 runnable shipped "
-                "configurations and of harness-generated variations (particle numbers, schedulers, cell grids, "
-                "chain/sampling/end times); distinct_nontrivial = committed events (each changes the global state or "
-                "the scheduler contents)",
-        "samples": [trace_label(tr) for tr in trs[:8]],
-        "input_distribution": {"traces": len(trs), "per_config": cfg_kinds, "event_kinds": stats_sum.get("kinds"),
+                "configurations, of variations of them (particle numbers, schedulers, cell grids, chain / sampling / "
+                "end times, crowded cells, mode switching with three composite objects) and of harness-generated "
+                "configurations (soft spheres in cubic and non-cubic boxes, unequal cell counts); "
+                "distinct_nontrivial = committed events (each changes the global state or the scheduler contents)",
+        "samples": labels,
+        "input_distribution": {"traces": ntraces, "per_config": cfg_kinds, "event_kinds": stats_sum.get("kinds"),
                                "stats": {k: v for k, v in stats_sum.items() if k != "kinds"}},
-        "traces_validated_against_impl": len(trs),
+        "traces_validated_against_impl": ntraces,
         "coq_conformance_cases": neval_total,
         "oracle_failures": len(all_fail), "conformance_mismatches": len(mism),
         "explanation": explanation,
         "trusted_base": trusted,
     }, assumptions)
-    return trs
+
+
+def payload_of(tr, max_legs):
+    return {"config": tr["config"], "seed": tr["seed"], "overrides": tr.get("overrides") or {},
+            "max_legs": max_legs, "ini_text": tr.get("ini_text")}
 
 
 def replay_payloads(path):
